@@ -21,6 +21,8 @@ Expressions are hashable tuples:
 """
 from __future__ import annotations
 
+import re as _re
+
 import jinja2
 from jinja2 import nodes
 
@@ -193,6 +195,167 @@ def unfilter(e, transparent=()):
         fs.append((e[1], e[3], e[4]))
         e = e[2]
     return e, list(reversed(fs))
+
+
+def subst(e, env: dict):
+    """The expression with every name bound in `env` ({% set name = value %}, macro parameters) replaced by its value
+    (values are expected to be substituted already; a chain of sets is followed)."""
+    if isinstance(e, tuple) and len(e) == 2 and e[0] == "name" and e[1] in env:
+        v = env[e[1]]
+        return v if v == e else subst(v, {k: x for k, x in env.items() if k != e[1]})
+    if isinstance(e, tuple):
+        return tuple(subst(x, env) if isinstance(x, tuple) else x for x in e)
+    return e
+
+
+def inline_macros(tree, rel: str, e, _depth=0):
+    """`helper(args)` used as a VALUE (`{{ helper(x) | filter }}`, `{% set v = helper(x) %}`): when the macro `helper` of the same
+    template consists of one `{{ expression }}` and nothing else, its value is that expression with the parameters bound.
+    Macros with any other body (text, control flow) are left as calls -- the caller then sees an unknown function."""
+    if not isinstance(e, tuple):
+        return e
+    e = tuple(inline_macros(tree, rel, x, _depth) if isinstance(x, tuple) else x for x in e)
+    if e and e[0] == "call" and isinstance(e[1], tuple) and e[1][0] == "name" and _depth < 8:
+        m = _macros_of(tree, rel).get(e[1][1])
+        if m is not None:
+            body = _items(tree, m.body, rel, {}, _depth + 1)
+            if len(body) == 1 and body[0][0] == "out":
+                params = [a.name for a in m.args]
+                if len(e[2]) <= len(params) and all(k in params for k, _ in e[3]):
+                    env = dict(zip(params[len(params) - len(m.defaults):], (jx(d) for d in m.defaults)))
+                    env.update(zip(params, e[2]))
+                    env.update(dict(e[3]))
+                    if all(p_ in env for p_ in params):
+                        return inline_macros(tree, rel, subst(body[0][1], env), _depth + 1)
+    return e
+
+
+# ----------------------------------------------------------------- text an expression prints
+
+def str_pieces(e) -> list:
+    """What `{{ e }}` prints, as a list of pieces ("lit", text) | ("fmt", format spec, expr) | ("val", expr), independent of how the
+    text is assembled: `a ~ b`, `"..{}..".format(a)`, `x | prefix(p) | suffix(s)` (naunet's own filters: p + x, x + s) and string
+    constants all become the same sequence; adjacent literals are merged."""
+    import string
+    out = []
+
+    def lit(t):
+        if t == "":
+            return
+        if out and out[-1][0] == "lit":
+            out[-1] = ("lit", out[-1][1] + t)
+        else:
+            out.append(("lit", t))
+
+    def rec(x):
+        if x[0] == "const" and isinstance(x[1], str):
+            lit(x[1])
+        elif x[0] == "concat":
+            for p_ in x[1]:
+                rec(p_)
+        elif x[0] == "filter" and x[1] in ("prefix", "suffix") and len(x[3]) == 1 and not x[4]:
+            if x[1] == "prefix":
+                rec(x[3][0]); rec(x[2])
+            else:
+                rec(x[2]); rec(x[3][0])
+        elif x[0] == "call" and x[1][0] == "attr" and x[1][2] == "format" and x[1][1][0] == "const" and isinstance(x[1][1][1], str) and not x[3]:
+            try:
+                fields = list(string.Formatter().parse(x[1][1][1]))
+            except ValueError:
+                out.append(("val", x)); return
+            auto = 0
+            tmp = []
+            for text, name, spec, conv in fields:
+                tmp.append(("lit", text))
+                if name is None:
+                    continue
+                if name == "":
+                    i = auto; auto += 1
+                elif name.isdigit():
+                    i = int(name)
+                else:
+                    out.append(("val", x)); return
+                if i >= len(x[2]) or conv:
+                    out.append(("val", x)); return
+                tmp.append(("arg", x[2][i], spec or ""))
+            for t in tmp:
+                if t[0] == "lit":
+                    lit(t[1])
+                elif t[2] == "":
+                    rec(t[1])
+                else:
+                    out.append(("fmt", t[2], t[1]))
+        else:
+            out.append(("val", x))
+    rec(e)
+    return out
+
+
+def elementwise(seq, elt):
+    """A chain of `| map(..)` filters over a base sequence as (base, the expression computed for one element `elt` of the base):
+    `S | map(attribute="a") | map("prefix", p)`  ->  (S, elt.a | prefix(p)).  A sequence without map filters is (seq, elt)."""
+    if seq[0] == "filter" and seq[1] == "map":
+        base, inner = elementwise(seq[2], elt)
+        kw = dict(seq[4])
+        if not seq[3] and set(kw) == {"attribute"} and kw["attribute"][0] == "const" and isinstance(kw["attribute"][1], str):
+            x = inner
+            for part in kw["attribute"][1].split("."):
+                x = ("attr", x, part)
+            return base, x
+        if seq[3] and seq[3][0][0] == "const" and isinstance(seq[3][0][1], str) and not seq[4]:
+            return base, ("filter", seq[3][0][1], inner, tuple(seq[3][1:]), ())
+        return seq, elt
+    return seq, elt
+
+
+def scan(tree, items, env, guards=()):
+    """The items of one template scope in order, with the `{% set %}` bindings in force at each item (names substituted, value
+    macros inlined) and the enclosing `{% if %}` tests; descends into if-arms (same scope), not into loops."""
+    for it in items:
+        if it[0] == "set" and it[1][0] == "name":
+            env[it[1][1]] = subst(inline_macros(tree, it[-1], it[2]), env)
+        elif it[0] == "if":
+            yield from scan(tree, it[2], env, guards + (("if+", it[1], dict(env)),))
+            yield from scan(tree, it[3], env, guards + (("if-", it[1], dict(env)),))
+        else:
+            yield it, env, guards
+
+
+def expr_at(tree, it, e, env):
+    return subst(inline_macros(tree, it[6] if it[0] == "for" else it[-1], e), env)
+
+
+def squeeze(pieces):
+    """pieces with whitespace runs of the literals collapsed and the ends stripped"""
+    out = []
+    for p in pieces:
+        if p[0] == "lit":
+            t = _re.sub(r"\s+", " ", p[1])
+            if out and out[-1][0] == "lit":
+                out[-1] = ("lit", _re.sub(r"\s+", " ", out[-1][1] + t))
+            else:
+                out.append(("lit", t))
+        else:
+            out.append(p)
+    if out and out[0][0] == "lit":
+        out[0] = ("lit", out[0][1].lstrip())
+    if out and out[-1][0] == "lit":
+        out[-1] = ("lit", out[-1][1].rstrip())
+    return [p for p in out if p != ("lit", "")]
+
+
+def printed(tree, items, env):
+    """what a run of text / output items prints, as str_pieces (sets and value macros followed, if-arms concatenated); a loop or
+    other control item appears as ("ctl", item, bindings in force, enclosing if-tests)"""
+    out = []
+    for it, env_, guards in scan(tree, items, env):
+        if it[0] == "text":
+            out.append(("lit", it[1]))
+        elif it[0] == "out":
+            out.extend(str_pieces(expr_at(tree, it, it[1], env_)))
+        else:
+            out.append(("ctl", it, dict(env_), guards))
+    return out
 
 
 # ----------------------------------------------------------------- config tests
